@@ -762,6 +762,39 @@ func framer(args []string) {
 			run(gen.Cat(f, gen.Junk(rng, 2+rng.Intn(6), 1), d, f), "history stream: valid, text, damaged twin, valid")
 			run(gen.Cat(f, d), "history stream: valid, damaged twin")
 		}
+		// history: a stream that ENDS INSIDE a frame (good leader, connection dropped) leaves the handler in mid-frame; the
+		// verdict of the next single-frame decode on that handler depends on its own buffer only - a valid frame of another
+		// type and the same length, a buffer whose length field is wrong but whose CRC matches the abandoned frame's
+		// length, a valid frame of another length, and the abandoned frame itself, completed
+		for k := 0; k < 2*scale; k++ {
+			typ := []int{1005, 1077, 1230, 4072}[k%4]
+			plen := 8 + rng.Intn(40)
+			f := gen.Frame(rng, typ, plen, 0)
+			cut := 5 + rng.Intn(len(f)-5) // at least the leader, not the whole frame
+			run(gen.Cat(gen.Frame(rng, 1006, 21, 0), f[:cut]), "history: stream ends inside a frame")
+			h := lastHandler
+			if h == nil {
+				continue
+			}
+			other := gen.Frame(rng, []int{1006, 1230, 1005, 1087}[k%4], plen, 0)
+			wrongLen := append([]byte{}, other...)
+			d := plen + 1 + rng.Intn(20)
+			wrongLen[1], wrongLen[2] = byte(d>>8)&3, byte(d)
+			tr.FixCRC(wrongLen)
+			resv := append([]byte{}, other...)
+			resv[1] |= 0x40
+			tr.FixCRC(resv)
+			for j, b := range [][]byte{other, wrongLen, resv, gen.Frame(rng, 1230, plen+3, 0), f} {
+				if j > 0 {
+					// put the handler back into the same state for each buffer
+					run(gen.Cat(gen.Frame(rng, 1006, 21, 0), f[:cut]), "history: stream ends inside a frame")
+					if h = lastHandler; h == nil {
+						break
+					}
+				}
+				getMessageOn(w, h, b, fmt.Sprintf("history: single-frame decode %d on a handler whose stream ended inside a frame", j))
+			}
+		}
 		for i, plen := range gen.Lens(rng, thorough, 6) {
 			typ := gen.TypeClass(rng, i)
 			if gen.IsMSM(typ) && plen < 4 {
